@@ -176,6 +176,33 @@ Theorem C05_validate_args_is_the_sources : forall f m,
 Proof. exact validate_args_tie. Qed.
 Print Assumptions C05_validate_args_is_the_sources.
 
+(* ... and the selection itself (RunExperiment._retrieve_most_relevant_existing_version): for every git oracle, mode and
+   list of recorded versions the model's `select` -- the function C05_select_spec and the theorems above are about --
+   is the method TRANSLATED from the working tree: the first loop files every version under the translated per-version
+   decision (gen_sel_classify), the second loop updates (selected_version, closest_distance) under the translated
+   decision over that state (gen_sel_closest), and what is returned is chosen by the translated tests on uses_git,
+   current_commit and the lengths of the lists (gen_sel_top).  A selection loop rewritten in the sources (another
+   comparison, another tie-break, another order of the tests, `max(..., key=...)`) changes or breaks these obligations. *)
+Theorem C05_selection_loop_is_the_sources :
+  forall (is_ancestor : cid -> cid -> bool) (get_distance : cid -> cid -> N) (m : mode) (vs : list version),
+  select is_ancestor get_distance m vs =
+  let lists := match m with Head h => fold_left (classify_by_gen is_ancestor h) vs ([], []) | _ => ([], []) end in
+  match gen_sel_top (uses_git m) (is_none (current_commit m)) (length (fst lists)) (length (snd lists)) (length vs) with
+  | 0 => latest vs
+  | 1 => match m with Head h => option_map fst (fold_left (closest_by_gen get_distance h) (fst lists) None) | _ => None end
+  | 2 => py_max_ts (snd lists)
+  | _ => None
+  end.
+Proof. exact select_tie. Qed.
+Print Assumptions C05_selection_loop_is_the_sources.
+
+Theorem C05_selection_steps_are_the_sources :
+  forall (is_ancestor : cid -> cid -> bool) (get_distance : cid -> cid -> N) (h : cid),
+  (forall vs ancs nulls, classify is_ancestor h vs ancs nulls = fold_left (classify_by_gen is_ancestor h) vs (ancs, nulls)) /\
+  (forall st v, closest_step get_distance h st v = closest_by_gen get_distance h st v).
+Proof. intros ia gd h. split; [exact (classify_tie ia h)|exact (closest_tie gd h)]. Qed.
+Print Assumptions C05_selection_steps_are_the_sources.
+
 (* non-vacuity: a history with a merge (1 <- 2, 1 <- 3, {2,3} <- 4 = HEAD, 1 <- 5 off the
    ancestry); versions at 2 and 3 are equally far from HEAD (distance 2 each), the newer one
    wins; the newest version of all (at 5) and the commit-less one are not chosen *)
